@@ -16,6 +16,7 @@ def run(ctx):
                 "mark / deadSn CAS, garbage-list append, session flush) for 2-3 writers on one contended key over two epochs: at most one winner "
                 "per delete, results justified by the key's state during the call; M2: free-running goroutines, one Writer each (2-8), hammer "
                 "1-8 shared keys with Put/Delete/Delete2/GetNode between quiescent NewSnapshots, readers scan and visit open snapshots meanwhile; "
+                "start-gun scenarios make all writers run the same operation on the same key at the same instant (spin barrier); "
                 "TLC (SetLin.tla) searches a linearization of every call/return history that also explains the next snapshot's content, Count(), "
                 "ItemsCount, every concurrent reader scan, and the physical chain after everything was closed and collected")
     nwriters.model_check(ctx, T)
@@ -34,6 +35,13 @@ def run(ctx):
         os.remove(tr)
         if ctx.violations and not T:
             break
+    # start-gun scenarios: every writer runs the same operations on the same 1-2 keys, released together by a spin barrier
+    if not ctx.violations or T:
+        n = 3000 if T else 300
+        tr, ns, crashes = writers.run_wr(ctx, "c03_gun", vlib.seed() * 10 + 8, n, mm=2, nomem=True, extra=["-gun"], timeout=600 if T else 240)
+        writers.judge_setlin(ctx, tr, "start-gun scenarios: 2-4 writers attack the same key at the same instant (%d scenarios)" % n, ns)
+        writers.fix_msg(ctx, tr)
+        os.remove(tr)
     ctx.assumptions += ["NewSnapshot is only called while no writer call is in progress (the API's contract)",
                         "events are ordered by the logger's mutex: Call is logged before the call starts, Ret after it returned",
                         "values carry the id of the creating Put, so the surviving version of a key is identified exactly (CompareKV comparator)"]
